@@ -73,6 +73,7 @@ func newTokenizer(kind string) tokenizers.ITokenizer {
 		t.SymbolState().Add("=>", tokenizers.Symbol)
 		t.SymbolState().Add("--", tokenizers.Symbol)
 		t.SymbolState().Add("-=", tokenizers.Symbol)
+		t.SymbolState().Add("..", tokenizers.Special)
 		return t
 	case "expression":
 		return calctok.NewExpressionTokenizer()
